@@ -404,7 +404,7 @@ func vGetProxy(kind cache.EntryKind, mode casblob.CompressionType, wantZstd bool
 		rc, found, err = c.Get(context.Background(), kind, hash, size, off)
 	}
 
-	vsym.Assert(c.lru.reservedSize == st.res0, "proxyget/C03-C12-reserved-space-returned")
+	vsym.Assert(c.lru.reservedSize == st.res0, "proxyget/C03-C05-C12-reserved-space-returned")
 	if bs != nil && px.gets > 0 {
 		vsym.Assert(bs.Closed >= 1, "proxyget/C12-backend-reader-closed")
 	}
@@ -446,7 +446,7 @@ func vGetProxy(kind cache.EntryKind, mode casblob.CompressionType, wantZstd bool
 	vsym.Assert(found == px.getSize, "proxyget/C12-reported-size-is-backend-size")
 	vsym.Assert(found >= 0, "proxyget/C12-unknown-backend-size-is-not-a-hit")
 	vsym.Assert(vsym.Or(size < 0, found == size), "proxyget/C12-size-mismatch-is-not-a-hit")
-	vsym.Assert(found <= c.maxProxyBlobSize, "proxyget/C18-oversize-backend-object-not-served")
+	vsym.Assert(found <= c.maxProxyBlobSize, "proxyget/C12-C18-oversize-backend-object-not-served")
 	noFault := vsym.Or(bs.FailAt < 0, bs.FailAt >= bs.L)
 	vsym.Assert(noFault, "proxyget/C12-stream-error-is-not-a-hit")
 	// committed entry
@@ -484,7 +484,7 @@ func vGetProxy(kind cache.EntryKind, mode casblob.CompressionType, wantZstd bool
 	if still != nil {
 		st.checkIndex(key, rd, ru, "proxyget-hit")
 	}
-	d.checkDirEqualsIndex("proxyget-hit/C12")
+	d.checkDirEqualsIndex("proxyget-hit/C12-C20")
 }
 
 var vErrBackend = errorString("backend fault")
